@@ -149,3 +149,40 @@ Proof.
   eapply PM_other; [|apply frame_refl].
   eapply PM_B; [|exact c13_e1|exact c13_e1]. eapply PM_append; [apply PM_init|exact c13_e0|exact c13_e0].
 Qed.
+
+From Hexital Require Import Inst.ZInst Proofs.DataSlot Proofs.DataInst Proofs.DataThms Proofs.DataNI Proofs.DataNIInst Proofs.DataNIThms.
+(* the same for B = VWAP, StandardDeviation or RSI - indicators that keep their running state in a
+   managed helper series: two candles are "the same for B" when they agree on timestamp, OHLCV, the
+   readings under the names B's class looks at (reads_data), B's own entry and its helper's entry
+   (and neither carries a top-level entry under the helper's name).  calculate() on two stores that
+   are the same for B gives stores that are the same for B, or the same exception - the loop itself
+   (resume index, skip rule, the write of the helper entry and of the reading) respects the relation,
+   no canonical-store hypothesis is needed - hence along every paired history (the same candles
+   arrive on both sides, B calculates on both, on one side anything else may happen to the candles
+   that keeps what B looks at) B ends with the same readings on every candle *)
+Theorem C13_data_series_noninterference :
+  forall (O : NumOps) (B : ind O) (key : string), data_node O B key -> data_kind O B key ->
+  forall r r0, paired O B r r0 -> related O B r r0.
+Proof. exact data_noninterference. Qed.
+Print Assumptions C13_data_series_noninterference.
+
+Theorem C13_same_for_means_same_readings :
+  forall (O : NumOps) (B : ind O) (st st0 : store O), i_sub O B = false -> Forall2 (same_for O B) st st0 ->
+  map (fun c => (t c, cur O (p c), alist_get (i_name O B) (inds O (p c)))) st =
+  map (fun c => (t c, cur O (p c), alist_get (i_name O B) (inds O (p c)))) st0.
+Proof. exact related_same_readings. Qed.
+Print Assumptions C13_same_for_means_same_readings.
+
+(* the relation is not just equality: a raw candle and the same candle carrying another
+   indicator's entries are the same for a VWAP *)
+Definition c13d_V : ind ZOps := top ZOps K_VWAP "VWAP" 4.
+Definition c13d_raw : cd (payload ZOps) := Build_cd 60%Z (raw_payload ZOps (Build_ohlcv ZOps 10 14 8 12 10)%Z).
+Definition c13d_deco : cd (payload ZOps) :=
+  Build_cd 60%Z (Build_payload ZOps (Build_ohlcv ZOps 10 14 8 12 10)%Z None false [("EMA_3"%string, @VNum ZOps 11%Z)] [("ATR_5_TR"%string, @VNum ZOps 6%Z)]).
+Example C13_same_for_example : same_for ZOps c13d_V c13d_deco c13d_raw.
+Proof.
+  unfold same_for, Rd. split; [reflexivity|]. split.
+  - split; [reflexivity|]. intros n Hn. cbn in Hn.
+    repeat (destruct Hn as [<-|Hn]; [reflexivity|]). contradiction.
+  - repeat split.
+Qed.
